@@ -454,10 +454,35 @@ func gen(c *ex.Ctx) {
 			c.Fail("vxfw/list/list.go: Dynamic.Draw: %d cursor-gutter blocks found, want 1", found)
 		}
 	}
+	// insertChildren: the break after an insertion, `if d.scroll.top == 0 { break }` or
+	// `if d.scroll.top == 0 || ah <= 0 { break }` (repair F119f)
+	insertStops := false
+	foundBreak := 0
+	if fd := ex.FindFunc(d, "Dynamic", "insertChildren"); fd != nil {
+		ast.Inspect(fd.Body, func(n ast.Node) bool {
+			in, ok := n.(*ast.IfStmt)
+			if !ok || len(in.Body.List) != 1 || norm(c, in.Body.List[0]) != "break" {
+				return true
+			}
+			switch norm(c, in.Cond) {
+			case "d.scroll.top == 0":
+				foundBreak++
+				in.Cond = &ast.Ident{Name: "VERIF_INSERT_BREAK"}
+			case "d.scroll.top == 0 || ah <= 0":
+				foundBreak++
+				insertStops = true
+				in.Cond = &ast.Ident{Name: "VERIF_INSERT_BREAK"}
+			}
+			return true
+		})
+		if foundBreak != 1 {
+			c.Fail("vxfw/list/list.go: Dynamic.insertChildren: %d recognised break conditions after the insertion, want 1", foundBreak)
+		}
+	}
 	// everything else the hand-written model transcribes is pinned by a digest of its normalised
 	// source (the cursor-gutter condition replaced by a placeholder)
 	want := map[string]string{
-		"Draw": "8e1973df1f77c317", "insertChildren": "843b02c7b9d6cf88", "NextItem": "8e80839a17f62206",
+		"Draw": "8e1973df1f77c317", "insertChildren": "512a0a3ef44c3010", "NextItem": "8e80839a17f62206",
 		"PrevItem": "74bcf84bf73521a0", "ensureScroll": "81dabf4a2c39627a", "SetCursor": "fd70cda53d473a1e",
 		"SetPendingScroll": "2f8d3b205c29da46", "HandleEvent": "4008face951abae6", "CaptureEvent": "9022d9aae43be6e0",
 		"Cursor": "16a4f696940a09df", "Offset": "a1fd1f518813ca53",
@@ -473,6 +498,7 @@ func gen(c *ex.Ctx) {
 			c.Fail("vxfw/list/list.go: Dynamic.%s changed (digest %s, the model transcribes %s): re-read the function and update Model/DynList.lean", nm, got, want[nm])
 		}
 	}
+	fmt.Fprintf(&sb, "\n/-- `insertChildren` stops inserting as soon as the accumulated height is used up (`|| ah <= 0` in the break after an insertion), so that `scroll.top` is the first inserted widget. -/\ndef dynInsertStops : Bool := %v\n", insertStops)
 	fmt.Fprintf(&sb, "\n/-- The cursor-gutter block of `Dynamic.Draw` tests `d.cursor >= d.scroll.top &&` before indexing. -/\ndef dynCursorGuard : Bool := %v\n", dynGuard)
 
 	sb.WriteString("\nend VaxisModel.Gen.ListFacts\n")
